@@ -452,13 +452,13 @@ func (r *resolver) applyDeviation(y *Module, d *Deviation) error {
 		return nil
 	}
 	if x := d.Add; x != nil {
-		if err := applicable(x.configPtr != nil || x.mandatoryPtr != nil, x.maxElementsPtr != nil || x.minElementsPtr != nil,
+		if err := applicable(x.configPtr != nil || x.mandatoryPtr != nil, x.maxElementsPtr != nil || x.minElementsPtr != nil || x.unboundedPtr != nil,
 			len(x.musts), x.units != "", len(x.defaultVals), len(x.unique)); err != nil {
 			return err
 		}
 	}
 	if x := d.Replace; x != nil {
-		if err := applicable(x.configPtr != nil || x.mandatoryPtr != nil, x.maxElementsPtr != nil || x.minElementsPtr != nil,
+		if err := applicable(x.configPtr != nil || x.mandatoryPtr != nil, x.maxElementsPtr != nil || x.minElementsPtr != nil || x.unboundedPtr != nil,
 			0, x.units != "", len(x.defaultVals), 0); err != nil {
 			return err
 		}
@@ -486,6 +486,12 @@ func (r *resolver) applyDeviation(y *Module, d *Deviation) error {
 				return fmt.Errorf("max-elements already set on %s", d.Ident())
 			}
 			hasListDets.setMaxElements(*(d.Add).maxElementsPtr)
+		}
+		if d.Add.unboundedPtr != nil {
+			if hasListDets.IsMaxElementsSet() || hasListDets.IsUnboundedSet() {
+				return fmt.Errorf("max-elements already set on %s", d.Ident())
+			}
+			hasListDets.setUnbounded(*(d.Add).unboundedPtr)
 		}
 		if d.Add.minElementsPtr != nil {
 			if hasListDets.IsMinElementsSet() {
@@ -538,6 +544,12 @@ func (r *resolver) applyDeviation(y *Module, d *Deviation) error {
 				return fmt.Errorf("max-elements not set on %s", d.Ident())
 			}
 			hasListDets.setMaxElements(*(d.Replace).maxElementsPtr)
+		}
+		if d.Replace.unboundedPtr != nil {
+			if !hasListDets.IsMaxElementsSet() && !hasListDets.IsUnboundedSet() {
+				return fmt.Errorf("max-elements not set on %s", d.Ident())
+			}
+			hasListDets.setUnbounded(*(d.Replace).unboundedPtr)
 		}
 		if d.Replace.minElementsPtr != nil {
 			if !hasListDets.IsMinElementsSet() {
